@@ -30,6 +30,37 @@ wit_b = z3.Function("tcount_wb", AA, A, I, I, I)
 wit_j = z3.Function("tcount_wj", AA, A, I, I, I)
 
 
+# undoing a recorded chain of swaps (cuckoo eviction): UC / UH = table cells / in-hand value after undoing
+# swaps n-1, ..., 0 (each swap exchanges the in-hand value with the slot (B[k], J[k]))
+UC = z3.Function("undo_cells", AA, I, A, A, I, AA)
+UH = z3.Function("undo_hand", AA, I, A, A, I, I)
+
+
+def store2(C, b, j, x):
+    return z3.Store(C, b, z3.Store(C[b], j, x))
+
+
+def undo_axioms():
+    C = z3.Const("C!u", AA)
+    B, J, B2, J2 = z3.Const("B!u", A), z3.Const("J!u", A), z3.Const("B2!u", A), z3.Const("J2!u", A)
+    h, n, k, i = z3.Ints("h!u n!u k!u i!u")
+    return [
+        z3.ForAll([C, h, B, J, n], z3.Implies(n <= 0, z3.And(UC(C, h, B, J, n) == C, UH(C, h, B, J, n) == h)),
+                  patterns=[UC(C, h, B, J, n), UH(C, h, B, J, n)]),
+        # one undo step (definition), stated between two existing applications
+        z3.ForAll([C, h, B, J, n, k],
+                  z3.Implies(z3.And(n >= 1, k == n - 1),
+                             z3.And(UC(C, h, B, J, n) == UC(store2(C, B[k], J[k], h), C[B[k]][J[k]], B, J, k),
+                                    UH(C, h, B, J, n) == UH(store2(C, B[k], J[k], h), C[B[k]][J[k]], B, J, k))),
+                  patterns=[z3.MultiPattern(UC(C, h, B, J, n), B[k]), z3.MultiPattern(UH(C, h, B, J, n), B[k])]),
+        # only the first n recorded swaps matter
+        z3.ForAll([C, h, B, J, B2, J2, n],
+                  z3.Or(z3.And(UC(C, h, B, J, n) == UC(C, h, B2, J2, n), UH(C, h, B, J, n) == UH(C, h, B2, J2, n)),
+                        z3.Exists([i], z3.And(0 <= i, i < n, z3.Or(B[i] != B2[i], J[i] != J2[i])))),
+                  patterns=[z3.MultiPattern(UC(C, h, B, J, n), UC(C, h, B2, J2, n))]),
+    ]
+
+
 def ind(c):
     return z3.If(c, z3.IntVal(1), z3.IntVal(0))
 
@@ -111,7 +142,7 @@ def axioms(rsum):
                   z3.Or(tsize(L, n) == tsize(L2, n), z3.Exists([b], z3.And(0 <= b, b < n, L[b] != L2[b]))),
                   patterns=[z3.MultiPattern(tsize(L, n), tsize(L2, n))]),
     ]
-    return out + list_axioms()
+    return out + list_axioms() + undo_axioms()
 
 
 # ---- update facts (added by the engine at the mutating statement) --------------------------------------------------
